@@ -4,8 +4,14 @@ import (
 	"encoding/json"
 	"fmt"
 
+	dbm "github.com/tendermint/tm-db"
+
+	"verif/harness/codecchk"
+	"verif/harness/cryptochk"
 	"verif/harness/numchk"
 	"verif/harness/sim"
+
+	"github.com/pokt-network/posmint/codec"
 )
 
 type pureCase struct {
@@ -64,4 +70,149 @@ func init() {
 		Rule:   "one case = one operand tuple (boundary-biased: 0, +-1, 10^k, 2^k, 2^255-1, 2^255, 2^256-1, rounding ties at the 18th and at the 36th digit, overflow bound +-1, mixed signs, uniformly random bit lengths) pushed through one Int/Uint/Dec operation or the whole Coins API and compared with math/big; distinct_nontrivial counts distinct 64-bit sub-seeds on a 1/64 sample plus the first 2000 per worker (a lower bound, every case is non-trivial)",
 		Floors: map[string]int64{"c18.dec.Quo": 5000, "c18.dec.directed_36th_digit_cases": 1000, "c18.int.expected_panics": 1000, "c18.coins.cases": 50000, "c18.dec.expected_panics": 100},
 		Assume: []string{"math/big is exact", "Int.Mod is judged as a non-negative residue (Euclidean), Int.Quo as truncation, as their doc comments say"}})
+}
+
+// ---- C19 ----------------------------------------------------------------------------------------
+
+func runC19(c *Ctx) {
+	nsig := 20000
+	kbProgs, kbOps := 16, 40
+	if !c.Quick() {
+		nsig, kbProgs, kbOps = 2000000, 16*8, 300
+	}
+	master := sim.NewRand(c.Seed ^ hashStr("C19"))
+	per := nsig / c.Of
+	for i := 0; i < per; i++ {
+		seed := master.U64() ^ uint64(c.Shard)*0x9E3779B97F4A7C15
+		rep := &caseReporter{c: c, caseID: fmt.Sprintf("sig-%d-%d", c.Shard, i), replay: pureCase{Kind: "sig", Seed: seed}}
+		cryptochk.CheckSignatures(sim.NewRand(seed), rep)
+		c.Res.Cases++
+		if i < 2000 || i%16 == 0 {
+			c.Nontrivial(fmt.Sprintf("sig-%d", seed))
+		}
+		if i == 0 {
+			c.Sample(map[string]interface{}{"kind": "signature batch", "subseed": seed, "note": "one batch = honest + 10 negative single-key cases + 12 multisignature cases over keys and messages derived from the sub-seed"})
+		}
+	}
+	km := sim.NewRand(c.Seed ^ hashStr("C19kb"))
+	for i := 0; i < kbProgs; i++ {
+		r := km.Split(uint64(i))
+		if !c.Mine(i) {
+			continue
+		}
+		seed := r.U64()
+		lazy := i%4 == 3
+		rep := &caseReporter{c: c, caseID: fmt.Sprintf("kb-%d", i), replay: map[string]interface{}{"kind": "keybase", "seed": seed, "ops": kbOps, "lazy": lazy}}
+		cryptochk.RunKeybase(sim.NewRand(seed), kbOps, lazy, rep)
+		c.Res.Cases++
+		c.Nontrivial(fmt.Sprintf("kb-%d", seed))
+		if i == 0 {
+			c.Sample(map[string]interface{}{"kind": "keybase program", "subseed": seed, "ops": kbOps, "lazy_goleveldb": lazy})
+		}
+	}
+}
+
+func replayC19(c *Ctx, raw json.RawMessage) {
+	var x struct {
+		Kind string `json:"kind"`
+		Seed uint64 `json:"seed"`
+		Ops  int    `json:"ops"`
+		Lazy bool   `json:"lazy"`
+	}
+	json.Unmarshal(raw, &x)
+	rep := &caseReporter{c: c, caseID: "replay", replay: raw}
+	if x.Kind == "keybase" {
+		cryptochk.RunKeybase(sim.NewRand(x.Seed), x.Ops, x.Lazy, rep)
+	} else {
+		cryptochk.CheckSignatures(sim.NewRand(x.Seed), rep)
+	}
+}
+
+// ---- C20 ----------------------------------------------------------------------------------------
+
+func runC20(c *Ctx) {
+	n := 300000
+	if !c.Quick() {
+		n = 20000000
+	}
+	cdc := sim.MakeCodec()
+	master := sim.NewRand(c.Seed ^ hashStr("C20"))
+	per := n / c.Of
+	// an application instance receives every hostile byte string at its ABCI entry points
+	idx := getIdx()
+	w := sim.NewWorld(c.Seed^uint64(c.Shard), sim.DefaultProfile(), idx)
+	w.Env.NoSnap = true
+	w.Start(dbm.NewMemDB())
+	appCalls := 0
+	for i := 0; i < per; i++ {
+		seed := master.U64() ^ uint64(c.Shard)*0x9E3779B97F4A7C15
+		g := &codecchk.Gen{R: sim.NewRand(seed), Seed: seed % 7}
+		kind := []string{"roundtrip", "roundtrip", "signbytes", "hostile", "hostile", "keys", "numbers"}[i%7]
+		rep := &caseReporter{c: c, caseID: fmt.Sprintf("%s-%d-%d", kind, c.Shard, i), replay: pureCase{Kind: kind, Seed: seed}}
+		runC20Case(cdc, kind, g, rep, func(bz []byte) {
+			// liveness at the ABCI boundary: every 8th hostile input goes through CheckTx / DeliverTx / simulate
+			if bz == nil || i%56 != 3 || w.Env.Dead {
+				return
+			}
+			appCalls++
+			if !w.Env.InBlock {
+				w.Env.BeginBlock(&sim.BeginSpec{Height: w.Env.H + 1, Time: sim.GenesisTime.Unix() + w.Env.H + 1, Proposer: w.Anchor.AddrHex()}, nil)
+			}
+			for _, call := range []*sim.Call{w.Env.CheckTx(bz, "hostile", nil), w.Env.DeliverTx(bz, "hostile", nil),
+				w.Env.Query(&sim.QuerySpec{Path: "/app/simulate", Data: fmt.Sprintf("%x", bz)})} {
+				if call.Panic != "" {
+					rep.Violate("C20", "abci-panic/"+call.Kind, fmt.Sprintf("%s on hostile bytes %x panicked out of the application: %s", call.Kind, bz, firstLine(call.Panic)))
+				}
+			}
+			c.Res.count("c20.hostile.abci_calls", 3)
+			if appCalls%20 == 0 && !w.Env.Dead {
+				w.Env.EndBlock(nil)
+				w.Env.Commit()
+			}
+		})
+		c.Res.Cases++
+		if i < 2000 || i%64 == 0 {
+			c.Nontrivial(fmt.Sprintf("%s-%d", kind, seed))
+		}
+		if i < 3 {
+			c.Sample(map[string]interface{}{"kind": kind, "subseed": seed})
+		}
+	}
+}
+
+func runC20Case(cdc *codec.Codec, kind string, g *codecchk.Gen, rep *caseReporter, onHostile func([]byte)) {
+	switch kind {
+	case "roundtrip":
+		codecchk.RoundTrip(cdc, g, rep)
+	case "signbytes":
+		codecchk.SignBytes(cdc, g, rep)
+	case "hostile":
+		bz := codecchk.HostileDecode(cdc, g, rep)
+		if onHostile != nil {
+			onHostile(bz)
+		}
+	case "keys":
+		codecchk.Keys(g, rep)
+	case "numbers":
+		codecchk.HostileNumbers(cdc, g, rep)
+	}
+}
+
+func replayC20(c *Ctx, raw json.RawMessage) {
+	var pc pureCase
+	if json.Unmarshal(raw, &pc) == nil {
+		g := &codecchk.Gen{R: sim.NewRand(pc.Seed), Seed: pc.Seed % 7}
+		runC20Case(sim.MakeCodec(), pc.Kind, g, &caseReporter{c: c, caseID: "replay", replay: pc}, nil)
+	}
+}
+
+func init() {
+	register(&PropDef{ID: "C19", Level: "exploration", Workers: workersFor(8, 16), Run: runC19, Replay: replayC19,
+		Rule:   "signature cases: one case = one batch over fresh keys (ed25519/secp256k1, 2-4 key multisignature incl. nested) and a message of 0 B..64 KiB, judged against harness ground truth and an independent primitive; keybase: one case = one program of create/import/export/update/delete/sign/list operations with right and wrong passphrases (empty, unicode, 1 KiB) against a model; distinct by sub-seed (lower bound, sampled)",
+		Floors: map[string]int64{"c19.sig.cases": 100000, "c19.multisig.cases": 100000, "c19.kb.ops": 400, "c19.kb.wrong_pass": 30, "c19.kb.export_import_roundtrips": 10},
+		Assume: []string{"crypto/ed25519 (Go standard library) and btcec are correct", "signature malleability (another byte string verifying for the same key and message) is counted, not judged"}})
+	register(&PropDef{ID: "C20", Level: "exploration", Workers: workersFor(8, 16), Run: runC20, Replay: replayC20,
+		Rule:   "one case = one generated value of a wire/storage type round-tripped through amino binary and JSON, or one transaction whose sign bytes are compared across encodings and under single-field changes, or one mutated/random byte string offered to the tx decoder (and, sampled, to CheckTx/DeliverTx/simulate of a live application), or one pair of composite store keys compared with their source tuples; distinct by sub-seed (lower bound, sampled)",
+		Floors: map[string]int64{"c20.roundtrip.StdTx": 10000, "c20.signbytes.field_mutations": 50000, "c20.hostile.decodes": 50000, "c20.hostile.accepted": 1000, "c20.keys.cases": 20000, "c20.hostile.abci_calls": 1000},
+		Assume: []string{"decoders of trusted store bytes may panic inside Must* helpers by design; the no-crash clause is judged on the tx decoder and the ABCI entry points"}})
 }
